@@ -35,8 +35,8 @@ ASSUMPTIONS = ["mpci_* arithmetic is modelled bit-exactly in Lean on top of the 
                "rectangles (a few hundred per quick run); at sample points z0, w0 an integer exponent |n| <= 1024 is decided EXACTLY with "
                "Gaussian rationals, every other one through the principal value exp(w0 Log z0) enclosed from the verified real "
                "enclosures of log, atan, pi, exp, cos, sin (exact dyadic interval arithmetic in Python, cos / sin over the narrow "
-               "argument interval through the Lipschitz bound 1 -- unverified combination step); points on the negative real axis of a "
-               "rectangle that touches it from below are used with integer exponents only (principal value not the inner limit)",
+               "argument interval through the Lipschitz bound 1 -- unverified combination step); points on the negative real axis are "
+               "decided with arg = +pi (principal value), as in the iv.log / iv.arg decisions",
                "mpmath's mp context is used only to steer the generators, never in a decision"]
 
 
